@@ -652,3 +652,29 @@ package hclwrite
 // The label string of a quoted label with one literal piece is that piece decoded, of an empty quoted label "".
 //@ loop 1 invariant value: forall j int :: { labelNames[j] } 0 <= j && j < len(labelNames) && typeis(list[j].content, ptr(quoted)) ==> (len(unbox(list[j].content, ptr(quoted)).tokens) == 3 ==> labelNames[j] == litVal(unbox(list[j].content, ptr(quoted)).tokens[1].Bytes)) && (len(unbox(list[j].content, ptr(quoted)).tokens) == 2 ==> labelNames[j] == "")
 //@ loop 2 invariant rangeindex + 1 <= len(tokens) - 2 && (rangeindex + 1 == 0 ==> labelString == "") && (rangeindex + 1 == 1 ==> labelString == litVal(tokens[1].Bytes))
+
+// ---- Format, the public entry point (unit U5b, C09) ----
+// verif:unit U5b props=C09
+// Format lexes, adjusts spacing and writes the tokens out. What is written must be the lexed tokens:
+// each written token still has the byte slice (same memory, same length) and the type it was lexed
+// with - only SpacesBefore may differ (the format contract above). The ghost fields record what
+// lexConfig produced; 'writtenFaithful' is set by WriteTo.
+// verif:ghostfield Token.lexOrg ref
+// verif:ghostfield Token.lexLen int
+// verif:ghostfield Token.lexType int
+// verif:ghostvar writtenFaithful bool
+// verif:pred asLexed(t *Token) = t != nil && org(t.Bytes) == t.lexOrg && len(t.Bytes) == t.lexLen && t.Type == t.lexType
+// (definition of the ghost record: assumed)
+// verif:func lexConfig
+//@ trusted
+//@ assigns nothing
+//@ ensures forall j int :: { ret[j] } 0 <= j && j < len(ret) ==> fresh(ret[j]) && asLexed(ret[j])
+// (WriteTo writes to an arbitrary io.Writer: its body is not verified; the clause below defines the
+// ghost flag and assumes WriteTo does not modify the tokens it writes)
+// verif:func (Tokens).WriteTo
+//@ trusted
+//@ assigns writtenFaithful
+//@ ensures writtenFaithful == (forall j int :: { ts[j] } 0 <= j && j < len(ts) ==> asLexed(ts[j]))
+// verif:func Format
+//@ nosafety
+//@ ensures faithful: writtenFaithful
